@@ -1,4 +1,84 @@
-// harnesses for this file are added below
+// Kani harnesses for lightning/src/ln/onion_utils.rs: AttributionData::{shift_right, shift_left}
 use super::*;
 include!("/verif/hooks/common.rs");
-pub fn replay(_name: &str, _a: &[u128]) -> Option<Outcome> { None }
+
+// start (in HMAC slots) of the block of HMACs added by hop position h: 20 + 19 + .. slots before it
+fn row(h: usize) -> usize {
+	h * MAX_HOPS - (h * (h.wrapping_sub(1))) / 2
+}
+
+// (P C14) shift_right moves hold time i to i+1 and every HMAC to its BOLT position one hop further;
+// checked at one symbolic position (h, c, b) / i, i.e. for every position
+pub fn contract_shift_right(hold: [u8; MAX_HOPS * HOLD_TIME_LEN], hmacs: [u8; HMAC_LEN * HMAC_COUNT], h: u8, c: u8, b: u8, i: u8) -> Outcome {
+	let (h, c, b, i) = (h as usize, c as usize, b as usize, i as usize);
+	if h >= MAX_HOPS - 1 || c >= MAX_HOPS - 1 - h || b >= HMAC_LEN || i >= (MAX_HOPS - 1) * HOLD_TIME_LEN {
+		return Outcome::Vacuous;
+	}
+	let mut a = AttributionData { hold_times: hold, hmacs };
+	a.shift_right();
+	let src = (row(h) + c) * HMAC_LEN + b;
+	let dst = (row(h + 1) + c) * HMAC_LEN + b;
+	if a.hmacs[dst] == hmacs[src] && a.hold_times[i + HOLD_TIME_LEN] == hold[i] {
+		Outcome::Holds
+	} else {
+		Outcome::Violated
+	}
+}
+
+// (P C14) shift_left undoes shift_right on everything that survives (the last hop's data falls off)
+pub fn contract_shift_left_inverse(hold: [u8; MAX_HOPS * HOLD_TIME_LEN], hmacs: [u8; HMAC_LEN * HMAC_COUNT], h: u8, c: u8, b: u8, i: u8) -> Outcome {
+	let (h, c, b, i) = (h as usize, c as usize, b as usize, i as usize);
+	if h >= MAX_HOPS - 1 || c >= MAX_HOPS - 1 - h || b >= HMAC_LEN || i >= (MAX_HOPS - 1) * HOLD_TIME_LEN {
+		return Outcome::Vacuous;
+	}
+	let mut a = AttributionData { hold_times: hold, hmacs };
+	a.shift_right();
+	a.shift_left();
+	let pos = (row(h) + c) * HMAC_LEN + b;
+	if a.hmacs[pos] == hmacs[pos] && a.hold_times[i] == hold[i] {
+		Outcome::Holds
+	} else {
+		Outcome::Violated
+	}
+}
+
+pub fn replay(name: &str, a: &[u128]) -> Option<Outcome> {
+	const HL: usize = MAX_HOPS * HOLD_TIME_LEN;
+	const ML: usize = HMAC_LEN * HMAC_COUNT;
+	if a.len() < HL + ML + 4 {
+		return None;
+	}
+	let mut hold = [0u8; HL];
+	let mut hm = [0u8; ML];
+	for k in 0..HL {
+		hold[k] = a[k] as u8;
+	}
+	for k in 0..ML {
+		hm[k] = a[HL + k] as u8;
+	}
+	let t = &a[HL + ML..];
+	Some(match name {
+		"shift_right" => contract_shift_right(hold, hm, t[0] as u8, t[1] as u8, t[2] as u8, t[3] as u8),
+		"shift_left_inverse" => contract_shift_left_inverse(hold, hm, t[0] as u8, t[1] as u8, t[2] as u8, t[3] as u8),
+		_ => return None,
+	})
+}
+
+#[cfg(kani)]
+mod harnesses {
+	use super::*;
+	#[kani::proof]
+	#[kani::unwind(21)]
+	fn h_shift_right() {
+		let o = contract_shift_right(kani::any(), kani::any(), kani::any(), kani::any(), kani::any(), kani::any());
+		kani::cover!(o == Outcome::Holds);
+		assert!(o != Outcome::Violated);
+	}
+	#[kani::proof]
+	#[kani::unwind(21)]
+	fn h_shift_left_inverse() {
+		let o = contract_shift_left_inverse(kani::any(), kani::any(), kani::any(), kani::any(), kani::any(), kani::any());
+		kani::cover!(o == Outcome::Holds);
+		assert!(o != Outcome::Violated);
+	}
+}
